@@ -6,7 +6,7 @@ From Unimock Require Import Model.Base Macro.RustPat.
    anything else is a pattern matched against the argument seen through
    AsRef<str> / AsRef<[T]> (identity for every other type) *)
 Definition pos_compare (p : pat) (v : value) : bool :=
-  match p with PCmp ne o => xorb ne (veqb v o) | _ => true end.
+  match p with PCmp ne o => vcmp ne v o | _ => true end.
 
 Definition pos_bindings (p : pat) (v : value) : option env :=
   match p with PCmp _ _ => Some [] | _ => pmatch p (view v) end.
